@@ -3,7 +3,7 @@
 From Coq Require Import String.
 From Coq Require Import List Strings.Byte NArith ZArith Bool.
 Require Import Bytes Show Tables Codec Norm CleanPath Chain.
-Require Serve.
+Require Serve Rot.
 Import ListNotations.
 
 Definition arg (args : list bs) (i : nat) : bs := nth i args [].
@@ -25,7 +25,9 @@ Definition entries : list (bs * (list bs -> bs)) := [
   (B "normalize_path", fun a => show_obs (normalize_path (arg a 0)));
   (B "clean_path", fun a => show_obs (clean_path (arg a 0)));
   (B "run_chain", fun a => run_chain a);
-  (B "serve_trace", fun a => Serve.serve_trace (arg a 0))
+  (B "serve_trace", fun a => Serve.serve_trace (arg a 0));
+  (B "sort_shape", fun a => Rot.sort_shape (arg a 0));
+  (B "spec_shape", fun a => Rot.spec_shape (arg a 0))
 ].
 
 Fixpoint lookup (cmd : bs) (l : list (bs * (list bs -> bs))) : option (list bs -> bs) :=
